@@ -259,6 +259,37 @@ def run_layouts(chk, binary, sc, tier, want_valid, want_invalid, chain):
     return jobs, recs, obs
 
 
+LISTENER_CFG = """SPECIFICATION Spec
+CHECK_DEADLOCK FALSE
+INVARIANTS PostStateOK ResultOK NotStuck
+"""
+
+
+def listener_validate(chk, binary, sc, recs, limit):
+    """Impl binding of the parser: the events the verif hook emits at the relation-level listener callbacks (callback, arguments,
+    state projection after it) are validated by TLC against the listener automaton of spec/DslListener.tla. A rejected trace
+    is DRIFT of the Impl layer (reported), the verdict of the properties comes from the Ideal comparison."""
+    docs = [{"id": r["id"], "text": r["text"], "modular": r["modular"]} for r in list(recs.values())[:limit] if r["valid"]]
+    inp, out = sc.path("lst.in.ndjson"), sc.path("listener_traces.ndjson")
+    write_ndjson(inp, docs)
+    run_harness(binary, ["listener-record", "-in", inp, "-out", out])
+    traces = read_ndjson(out)
+    if not traces:
+        raise Infra("the listener hook recorded no trace (hook removed or not compiled in?)")
+    res = run_tlc("DslListener", LISTENER_CFG, sc, data_files={"listener_traces.ndjson": out}, timeout=3000)
+    events = sum(len(t["events"]) for t in traces)
+    if res.violated:
+        chk.drift.append({"listener": "TLC rejects a recorded listener trace: %s" % res.violated, "detail": res.tail[-600:]})
+        log("listener traces: %d traces / %d events, REJECTED by the Impl automaton (%s) - drift, not a verdict" % (len(traces), events, res.violated))
+    else:
+        log("listener traces: %d relation declarations / %d hook events validated by TLC against the listener automaton (%d states)" % (len(traces), events, res.distinct))
+        chk.add("listener_traces_validated", len(traces))
+        chk.add("listener_events_validated", events)
+    chk.cov["states"] = chk.cov.get("states", 0) + res.distinct
+    chk.cov["transitions"] = chk.cov.get("transitions", 0) + res.generated
+    return len(traces) if not res.violated else 0
+
+
 def expected_model(m):
     return {"schema": m["schema"], "types": [{"name": t["name"], "rels": [{"name": x["name"], "rw": x["rw"], "restr": x["restr"]} for x in t["rels"]]} for t in m["types"]],
             "conds": [{"name": c["name"], "expr": c["expr"].strip(), "params": c["params"]} for c in m["conds"]]}
@@ -277,7 +308,8 @@ def run_c03(chk, binary, sc, tier):
         elif clean_model(p["m"]) != expected_model(r["m"]):
             chk.violation("layout parses to a different model than the one written", dict(rep, parsed=clean_model(p["m"]), expected=expected_model(r["m"])))
     texts = {recs[j["id"]]["text"] for j in jobs}
-    chk.cov.update(traces_validated_against_impl=len(jobs), evaluations=len(jobs), distinct_nontrivial=len(texts), documents=len(jobs),
+    nlst = listener_validate(chk, binary, sc, recs, 100000)
+    chk.cov.update(traces_validated_against_impl=nlst, evaluations=len(jobs), distinct_nontrivial=len(texts), documents=len(jobs),
                    rule="documents = indexed family (3 name sets incl. keywords and dotted/dashed identifiers x model / deep model / module file x rewrite trees x position of the direct assignment x "
                         "redundant parentheses x restriction and condition variants); layouts = every single style dimension, every single local override on a block of documents, "
                         "seeded random mixtures of styles with up to two overrides; distinct by rendered text")
